@@ -133,13 +133,30 @@ Qed.
 
 (* for restart-free histories starting in sync, ops_ok is implied by its environmental part *)
 Lemma env_implies_ok : forall W ops st, 0 < W -> mem_sync W (fst st) (snd st) = true ->
-  forallb is_restart ops = false \/ True ->
   (forall o, In o ops -> is_restart o = false) ->
   ops_env W ops st = true -> ops_ok W ops st = true.
 Proof.
-  induction ops; simpl; intros st HW Hs _ Hnr He; auto.
+  induction ops; simpl; intros st HW Hs Hnr He; auto.
   apply andb_true_iff in He as [E1 E2]. apply andb_true_iff. split.
   - destruct a; simpl in *; auto. destruct (d_height (fst st)); auto. rewrite Hs, E1.
     rewrite orb_true_r. reflexivity.
   - apply IHops; auto. apply sync_step; auto.
+Qed.
+
+Lemma sync_aligned : forall W d m, 0 < W -> mem_sync W d m = true -> rf_aligned W m = true.
+Proof.
+  intros W d m HW Hs. unfold mem_sync in Hs. apply andb_true_iff in Hs as [_ Hs]. unfold rf_aligned.
+  destruct (d_height d); apply andb_true_iff in Hs as [_ Hf]; apply N.eqb_eq in Hf; rewrite Hf; apply N.eqb_eq.
+  - apply align_mod; auto.
+  - apply N.mod_0_l. lia.
+Qed.
+
+Lemma crash_consistent_restart_free : forall W ops k st, 0 < W ->
+  consistent W (fst st) = true -> mem_sync W (fst st) (snd st) = true ->
+  (forall o, In o ops -> is_restart o = false) -> ops_env W ops st = true ->
+  consistent W (fst (exec_crash W ops k st)) = true.
+Proof.
+  intros W ops k st HW Hc Hs Hnr He. apply crash_consistent; auto.
+  - split; auto. eapply sync_aligned; eauto.
+  - apply env_implies_ok; auto.
 Qed.
